@@ -7,3 +7,5 @@ import Tx3Proofs.C13
 #print axioms Tx3.Lang.C13_facade
 #print axioms Tx3.Lang.C13_facade_ok
 #print axioms Tx3.Lang.analyze_eq_analyzeWith
+#print axioms Tx3.Lang.lowerDirective_noPanic
+#print axioms Tx3.Lang.lowerTxFull_noPanic
